@@ -42,6 +42,7 @@ type c13Plan struct {
 	W          c12Workload `json:"workload"`
 	Concurrent bool        `json:"concurrent"`
 	AutoClear  bool        `json:"auto_clear"`
+	AutoClean  bool        `json:"auto_clean,omitempty"`
 	Fault      c13Fault    `json:"fault"`
 	Hold       *c12Hold    `json:"hold,omitempty"`
 }
@@ -168,8 +169,15 @@ func (in *c13Inj) step(name string) {
 	case "write.recv":
 		in.counts["create"]++
 		if in.fault.Kind == "create" && in.counts["create"] == in.fault.N {
-			in.fired, in.firedAt = true, fmt.Sprintf("temp file creation #%d (directory removed)", in.fault.N)
-			os.RemoveAll(in.dir)
+			// another writer may be creating its file at this very moment: RemoveAll then gives up with "directory not
+			// empty" and nothing has failed. The fault counts as reached only once the directory is really gone.
+			for k := 0; k < 20; k++ {
+				os.RemoveAll(in.dir)
+				if _, err := os.Stat(in.dir); err != nil {
+					in.fired, in.firedAt = true, fmt.Sprintf("temp file creation #%d (directory removed)", in.fault.N)
+					break
+				}
+			}
 		}
 	case "write.sync":
 		in.counts["sync"]++
@@ -220,6 +228,7 @@ type c13Outcome struct {
 	DirLeftAfterCleanUp bool     `json:"directory_exists_after_cleanup,omitempty"`
 	DrainedAfterError   bool     `json:"drained_to_eof_after_the_error,omitempty"`
 	Residue             []string `json:"run_files_left_after_that_drain,omitempty"`
+	DirLeftAfterDrain   bool     `json:"directory_exists_after_that_drain,omitempty"`
 }
 
 // c13Exec runs one workload with at most one injected fault.
@@ -231,7 +240,7 @@ func c13Exec(r *obs.Run, p c13Plan, vals []int) (out c13Outcome) {
 		out.Panicked = "harness: morass.New: " + err.Error()
 		return
 	}
-	m.AutoClear = p.AutoClear
+	m.AutoClear, m.AutoClean = p.AutoClear, p.AutoClean
 	ents, _ := os.ReadDir(scratch)
 	inj := &c13Inj{fault: p.Fault, counts: map[string]int{}, restore: map[int64]func(){}, firedIn: map[int]bool{}}
 	if len(ents) == 1 {
@@ -285,12 +294,17 @@ func c13Exec(r *obs.Run, p c13Plan, vals []int) (out c13Outcome) {
 			}
 			if err != nil {
 				note(fmt.Sprintf("Pull %d", len(out.Got)), err)
-				if p.AutoClear && inj.dir != "" {
-					// the caller drains on regardless: once io.EOF arrives the AutoClear promise (no run files left) applies
+				if (p.AutoClear || p.AutoClean) && inj.dir != "" {
+					// the caller drains on regardless: once io.EOF arrives the AutoClear promise (no run files left) applies,
+					// and so does the AutoClean promise (the directory is gone)
 					for k := 0; k < len(vals)+4; k++ {
 						var x c11Int
 						if e := m.Pull(&x); e == io.EOF {
-							if ents, e2 := os.ReadDir(inj.dir); e2 == nil {
+							if p.AutoClean {
+								out.DrainedAfterError = true
+								_, e2 := os.Stat(inj.dir)
+								out.DirLeftAfterDrain = e2 == nil
+							} else if ents, e2 := os.ReadDir(inj.dir); e2 == nil {
 								out.DrainedAfterError = true
 								for _, en := range ents {
 									out.Residue = append(out.Residue, en.Name())
@@ -486,6 +500,7 @@ type c13Item struct {
 	plan   c13Plan
 	strace string // non-empty: strace injection spec
 	resid  bool   // residue history
+	early  *c13Early
 }
 
 func c13Items(r *obs.Run) []c13Item {
@@ -530,6 +545,15 @@ func c13Items(r *obs.Run) []c13Item {
 			items = append(items, c13Item{plan: c13Plan{W: w, Concurrent: conc, Fault: c13Fault{"write", -2}}})
 		}
 	}
+	// CleanUp called at once by a caller that gives up, while the last background writer is still at work
+	for _, w := range []c12Workload{{3, 2, 1}, {4, 3, 0}, {2, 3, 1}} {
+		for h := 1; h <= 2; h++ {
+			for _, x := range []string{"write.recv", "write.register", "write.encode#1", "write.sync"} {
+				items = append(items, c13Item{early: &c13Early{W: w, Handoffs: h, X: x}})
+				items = append(items, c13Item{early: &c13Early{W: w, Handoffs: h, X: x, Wait: true}})
+			}
+		}
+	}
 	ns := r.Pick(6, 40)
 	for k := 0; k < ns; k++ {
 		sys := []string{"fsync", "lseek"}[k%2]
@@ -549,7 +573,7 @@ func init() {
 		Level: "fault_enumeration",
 		Rule: "census of every temp-file creation, run-file write, sync, seek and read of multi-chunk workloads (2..5 chunks, both writer modes), then one run per fault point with exactly that operation failing (writes/reads through the verif run-file wrapper, creation by removing the sorter's directory, sync/seek by closing the run file behind the sorter, and again as a transient failure of that one fsync/lseek with the file left intact (descriptor swapped for a pipe end during the call); " +
 			"fsync/lseek also injected by strace into a hook-free child); in concurrent mode faults are combined with holds ordering the failing writer's return before/after the caller's next hand-off and Finalise. Oracle: no error reported by any Push/Finalise/Pull and (pulled != sorted input, or the fault is known to have taken effect) => violation. " +
-			"Two-cycle runs: the n-th write fails in the first cycle and, after Clear, again in the second, where it must be reported again. Residue: random C11 histories with AutoClean/AutoClear, checking the temporary directory after drain and after CleanUp. Non-trivial = the chosen operation was actually reached; distinct = (workload, mode, fault, hold) or history word",
+			"Two-cycle runs: the n-th write fails in the first cycle and, after Clear, again in the second, where it must be reported again. Failing reads also on sorters with AutoClean (drained on to io.EOF after the error: directory gone). CleanUp called while a background writer is parked at recv/register/encode/sync: nil, directory gone then and after the writers have finished. Residue: random C11 histories with AutoClean/AutoClear, checking the temporary directory after drain and after CleanUp. Non-trivial = the chosen operation was actually reached; distinct = (workload, mode, fault, hold) or history word",
 		Batches: func(t string) int {
 			if t == "thorough" {
 				return 16
@@ -563,7 +587,8 @@ func init() {
 		MinDistinct: func(t string) int { return 500 },
 		Floors: func(string) map[string]int64 {
 			return map[string]int64{"fault_runs": 800, "faults_reached": 700, "faults_create": 80, "faults_write": 200, "faults_sync": 80, "faults_seek": 80, "faults_syncx": 80, "faults_seekx": 80, "faults_read": 160, "errors_reported": 700, "faults_with_autoclear": 300, "faults_read_in_long_runs": 30,
-				"strace_injections_hit": 3, "two_cycle_faults_reached": 60, "residue_histories": 500, "residue_autoclean_drains": 60, "residue_autoclear_drains": 100}
+				"strace_injections_hit": 3, "two_cycle_faults_reached": 60, "residue_histories": 500, "residue_autoclean_drains": 60, "residue_autoclear_drains": 100,
+				"autoclean_drains_after_a_read_error": 100, "cleanups_with_a_background_writer_at_work": 40, "cleanups_while_the_writer_was_parked_at_its_step": 15}
 		},
 		Assumptions: []string{"exactly one operation is made to fail per run; later failures caused by it (a closed or removed file) are consequences, not additional injections",
 			"if an error is reported nothing further is demanded of the delivered values", "strace counts the N-th matching syscall per thread; the (INJECTED) lines in its log are the evidence of what failed"},
@@ -579,6 +604,8 @@ func c13Case(r *obs.Run, i int) {
 		c13TwoCycles(r, it.plan.W, it.plan.Concurrent, it.two)
 	case it.resid:
 		c13Residue(r)
+	case it.early != nil:
+		c13EarlyCleanUp(r, *it.early)
 	case it.strace != "":
 		c13Strace(r, it.strace)
 	case it.plan.Fault.N == -2:
@@ -607,6 +634,16 @@ func c13Case(r *obs.Run, i int) {
 				p.AutoClear = ac
 				c13One(r, p, vals)
 			}
+			// reads that fail: also on a sorter with AutoClean (alone, and together with AutoClear), where the caller
+			// drains on after the error and the directory must be gone at io.EOF (the long runs with both kinds of failure)
+			if it.plan.Fault.Kind == "read" || (it.plan.Fault.Kind == "read-unexpected-eof" && it.plan.W.Chunk >= 400) {
+				for _, ac := range []bool{false, true} {
+					p := it.plan
+					p.Fault.N = n
+					p.AutoClear, p.AutoClean = ac, true
+					c13One(r, p, vals)
+				}
+			}
 		}
 	default:
 		c13One(r, it.plan, c13Vals(it.plan.W))
@@ -618,6 +655,9 @@ func c13One(r *obs.Run, p c13Plan, vals []int) {
 	out := c13Exec(r, p, vals)
 	r.Count("fault_runs", 1)
 	sig := fmt.Sprintf("%+v/%v/%v/%+v/%+v", p.W, p.Concurrent, p.AutoClear, p.Fault, p.Hold)
+	if p.AutoClean {
+		sig += "/autoclean"
+	}
 	w := map[string]interface{}{"plan": p, "values": vals, "outcome": out}
 	if strings.HasPrefix(out.Panicked, "harness:") {
 		r.Inconclusive(out.Panicked)
@@ -649,7 +689,12 @@ func c13One(r *obs.Run, p c13Plan, vals []int) {
 	} else {
 		r.Count("cleanups_after_a_fault_run", 1)
 	}
-	if out.DrainedAfterError {
+	if out.DrainedAfterError && p.AutoClean {
+		r.Count("autoclean_drains_after_a_read_error", 1)
+		if out.DirLeftAfterDrain {
+			r.Violate("autoclean-residue", fmt.Sprintf("%s (workload %+v, concurrent=%v, AutoClean, AutoClear=%v): the error was reported, the caller drained on to io.EOF, and the temporary directory still exists", out.FiredAt, p.W, p.Concurrent, p.AutoClear), w)
+		}
+	} else if out.DrainedAfterError {
 		r.Count("autoclear_drains_after_a_read_error", 1)
 		if len(out.Residue) > 0 {
 			r.Violate("autoclear-residue", fmt.Sprintf("%s (workload %+v, concurrent=%v, AutoClear): the error was reported, the caller drained on to io.EOF, and %d run file(s) remain: %v", out.FiredAt, p.W, p.Concurrent, len(out.Residue), out.Residue), w)
